@@ -34,6 +34,22 @@ def run_property(prop, tier, root=None, quiet=False, write=True,
     from sa import selftest  # pylint: disable=g-import-not-at-top
     report.selftest = selftest.run_for(
         prop, baseline=[(v['rule'], v['key']) for v in report.violations])
+    try:
+      from sa import mutants  # pylint: disable=g-import-not-at-top
+      summary, res = mutants.sweep(prop, limit=int(os.environ.get(
+          'VERIF_MUTANT_LIMIT', '160')))
+      summary['note'] = (
+          'automatic single-point AST mutants of the functions the rules '
+          'analysed (in memory, nothing executed); killed = reported as a '
+          'violation, broken_analysis = answered ANALYSIS-ERROR, survived = '
+          'not reported (behaviour-preserving for this property, or a blind '
+          'spot); informational, never fails the check')
+      summary['survivor_samples'] = [r[0] for r in res
+                                     if r[1] == 'survived'][:15]
+      report.selftest = dict(report.selftest or {}, mutation_sweep=summary)
+    except Exception as e:  # pylint: disable=broad-except
+      report.selftest = dict(report.selftest or {},
+                             mutation_sweep={'error': repr(e)})
   code = core.finish(report, mod.DECIDES, mod.DOES_NOT_DECIDE)
   return code, report
 
